@@ -33,6 +33,7 @@
 -/
 import EG.Lemmas.JoinsBBoxPolyMain
 import EG.Lemmas.JoinsBBoxTriMain
+import EG.Lemmas.JoinsBBoxWidth1
 namespace EG.C02.JoinsBBox
 open EG EG.Joins
 
@@ -88,6 +89,26 @@ example : (polySegments [⟨6, -5⟩, ⟨0, 0⟩, ⟨-5, 6⟩, ⟨-4, 2⟩] 2).m
 -- wide strokes, sharp and degenerate joins, a repeated vertex
 example : PolyBBoxGuard ⟨⟨-7, -9⟩, [⟨0, 0⟩, ⟨9, 1⟩, ⟨0, 2⟩, ⟨0, 2⟩, ⟨4, -6⟩]⟩ 5 := by decide
 example : (pixels ⟨⟨5, 3⟩, [⟨-5, -4⟩, ⟨-1, 5⟩, ⟨3, 2⟩, ⟨7, -4⟩]⟩ 2).map (·.length) = some 30 := by decide
+
+/-- **Stroke width 1: `draw` (one `draw_iter` call with `points()`) and `pixels()` stay inside
+`bounding_box()`** - the fold over the boxes of the width-1 segments, whose corners are the vertices
+themselves. Hypothesis: the vertices are `i32` values (the rounding division of the join
+intersections saturates to `i32`). -/
+theorem polyline_width1_in_bounding_box (pl : Polyline) (hi : AllI32 pl.vertices) (bb : Rect)
+    (hbb : styledBoundingBox pl 1 = some bb) :
+    (∀ pts, drawStyled pl 1 = some (.drawIter pts) → ∀ p ∈ pts, bb.contains p = true) ∧
+    (∀ ps, pixels pl 1 = some ps → ∀ p ∈ ps, bb.contains p = true) := by
+  constructor
+  · intro pts h
+    simp only [drawStyled, Option.some.injEq, PolyDraw.drawIter.injEq] at h
+    subst h
+    exact points_in_bbox_width1 pl hi bb hbb
+  · intro ps h
+    simp only [pixels, Option.some.injEq] at h
+    subst h
+    exact points_in_bbox_width1 pl hi bb hbb
+
+example : AllI32 [⟨-5, -4⟩, ⟨-1, 5⟩, ⟨3, 2⟩, ⟨7, -4⟩] := by decide
 
 /-! ### Stroked and filled triangles -/
 
@@ -215,9 +236,32 @@ theorem triangle_collapsed_inside_in_bounding_box (t : Tri) (style : TriStyle)
 
 example : (⟨⟨0, 0⟩, ⟨9, 1⟩, ⟨2, 7⟩⟩ : Tri).sortedClockwise.isCollapsed 4 .right = some true := by decide
 
+/-- **Any stroke width, any alignment, with or without fill: if the end points of the outline lines
+of the three stroke segments (at most 24 points) and the three vertices lie in `bounding_box()`,
+then everything `draw` fills and every point of `pixels()` does** (the reduction used above, with
+the geometric part left as the decidable hypothesis `TriOutlineGuard`; it covers the cases the
+theorems above do not: Inside strokes that are not collapsed, and stroke width 1). -/
+theorem triangle_in_bounding_box_of_outline (t : Tri) (style : TriStyle)
+    (hg : TriOutlineGuard t style) (bb : Rect) (hbb : triStyledBoundingBox t style = some bb) :
+    (∀ calls, triDraw t style = some calls →
+      ∀ rc ∈ calls, ∀ p, rc.1.contains p = true → bb.contains p = true) ∧
+    (∀ px, triPixels t style = some px → ∀ pc ∈ px, bb.contains pc.1 = true) := by
+  have hmin := triOutlineGuard_top t style hg bb hbb
+  have ctx := fun c hc => triCtx_outline t style hg bb hbb c hc
+  exact ⟨fun calls hd => triDraw_in_box t style bb hbb hmin ctx calls hd,
+    fun px hpx => triPixels_in_box t style bb hbb hmin ctx px hpx⟩
+
+-- an Inside stroke of width 3 that is not collapsed
+example : TriOutlineGuard ⟨⟨0, 0⟩, ⟨20, 3⟩, ⟨6, 18⟩⟩ ⟨some 1, some 2, 3, .inside⟩ := by decide
+example : (⟨⟨0, 0⟩, ⟨20, 3⟩, ⟨6, 18⟩⟩ : Tri).sortedClockwise.isCollapsed 3 .right = some false := by decide
+-- stroke width 1, the three alignments
+example : TriOutlineGuard ⟨⟨0, 0⟩, ⟨9, 1⟩, ⟨2, 7⟩⟩ ⟨some 1, some 2, 1, .center⟩ := by decide
+example : TriOutlineGuard ⟨⟨0, 0⟩, ⟨9, 1⟩, ⟨2, 7⟩⟩ ⟨none, some 2, 1, .inside⟩ := by decide
+example : TriOutlineGuard ⟨⟨0, 0⟩, ⟨9, 1⟩, ⟨2, 7⟩⟩ ⟨none, some 2, 1, .outside⟩ := by decide
+
 -- [V] stroked polyline / triangle (width > 1) with a skeleton segment beside a join whose filler line is on the left side, when the midpoint of that filler line is NOT in the box (guard `adjOK`; no such input is known): carried by correspondence + oracle only
 -- [V] filled triangle with a Center / Outside stroke of width > 1 whose vertices are not all inside the stroke box (thin slivers; guard `TriStrokeGuard`): the plain triangle scanline of a row without stroke scanlines stays in the box: carried by correspondence + oracle only
--- [V] triangle with an Inside stroke of width > 1 that is not collapsed: the inner corners (rounded intersections of the inner edge lines) lie inside the plain vertex box: carried by correspondence + oracle only
--- [V] polyline / triangle of stroke width 1 inside bounding_box() (the box is the fold over width-1 segments, resp. the vertex box): carried by correspondence + oracle only
+-- [V] triangle with an Inside stroke of width > 1 that is not collapsed: the inner corners (rounded intersections of the inner edge lines; hypothesis `TriOutlineGuard` of `triangle_in_bounding_box_of_outline`) lie inside the plain vertex box: carried by correspondence + oracle only
+-- [V] triangle of stroke width 1: the corners of the width-1 joins are the vertices for every alignment (hypothesis `TriOutlineGuard`; proved for Center alignment and `i32` vertices in C19/Joins.lean `join_width1_corners`): carried by correspondence + oracle only
 
 end EG.C02.JoinsBBox
